@@ -149,6 +149,15 @@ CHECKS = {
             "which it was first found superseded and on the CRL) pairs; "
             "the counters give the number of superseded entries found on "
             "CRLs."
+            " Wave 5: two more boundary scripts and random operations move "
+            "a CA to a SECOND publication server (another krill instance "
+            "reached through the in-process transport hook H7) and back - a "
+            "key roll whose keys publish at different servers - incl. the "
+            "loss of the parent while both publication points are in use; "
+            "at caught-up points (a) no object the ledger saw under a key "
+            "its owner has dropped since may still be served by either "
+            "server, reachable from the trust anchor or not, and (b) "
+            "nothing is validated that is no longer configured."
         ),
         "assumptions": COMMON_ASSUMPTIONS + [RP_ASSUMPTION, 
             "objects are only compared while their issuing key still has a "
@@ -216,6 +225,18 @@ CHECKS = {
             "completion of a parent synchronisation leaves behind (no entry "
             "at all for that task): start-up must schedule the refresh "
             "again. "
+            "Part E (overlap): a change is committed by another request "
+            "while the task its follow-up shares a queue name with is being "
+            "executed - before the task's work, or between its work and the "
+            "scheduler's completion call: a remote publisher publishes or "
+            "withdraws while update_rrdp_if_needed runs, a ROA change while "
+            "the CA's repository synchronisation runs, the parent changes "
+            "the entitlement or the CA starts a key roll while its parent "
+            "synchronisation runs (10 cases; 2 per shard in quick, all in "
+            "thorough). The queue alone must then make the change visible "
+            "(RRDP snapshot = server content, no open request, objects in "
+            "the repository, exact tree, grown entitlement picked up, new "
+            "key certified). "
         ),
         "assumptions": COMMON_ASSUMPTIONS + [
             "'eventually executed' is restated as bounded progress: the "
@@ -401,6 +422,10 @@ CHECKS = {
             "job on the content log; a serial a client has seen never comes "
             "back; after a crash the server must not load behind the serial "
             "it has served. "
+            " Wave 5: on every second cut, after the crash or failed "
+            "write, the repository is first written again on request "
+            "(RepositoryManager::write_repository): that write must succeed "
+            "and leave the rsync tree equal to the snapshot."
         ),
         "assumptions": COMMON_ASSUMPTIONS + [
             "a crash loses everything after a mutation boundary; torn "
@@ -603,6 +628,11 @@ CHECKS = {
             "accepted commands in every returned state, a freshly opened "
             "instance reads back the same state and continues at revision + "
             "1. "
+            " Wave 5 (life cycle): 3-6 threads create, remove and "
+            "re-create one entity and append to it at the same time (disk "
+            "and memory): acknowledged creations <= 1 + removal calls, a "
+            "created entity is empty, no id twice, own id last, and an "
+            "instance opened afresh loads what the running one holds."
         ),
         "assumptions": COMMON_ASSUMPTIONS + [
             "interleavings are those the OS scheduler produces under the "
@@ -637,6 +667,10 @@ CHECKS = {
     },
     "C12": {
         "bin": "c12",
+        "san_stages": [
+            {"kind": "asan", "tiers": ["thorough"], "shards": 4,
+             "budget_s": 150},
+        ],
         "level": "exploration",
         "quick": {"shards": 12, "budget_s": 150, "min_evaluations": 5000},
         "thorough": {"shards": 12, "budget_s": 400, "min_evaluations": 150000},
@@ -854,6 +888,11 @@ CHECKS = {
             " Round e: after the queue became idle the RRDP snapshot on "
             "disk must equal the content the server accepted (polled for 20 "
             "s). "
+            " Wave 5: a remote publisher (pre-signed RFC 8181 requests for "
+            "URIs of their own) publishes from the client tasks as well: "
+            "every request must be answered with success, and afterwards "
+            "the publisher holds exactly the acknowledged objects (also in "
+            "the served RRDP snapshot and in an instance opened afresh)."
         ),
         "assumptions": COMMON_ASSUMPTIONS + [
             "interleavings are sampled from the OS scheduler under seeded "
@@ -906,6 +945,10 @@ CHECKS = {
             "completely (publish + withdraw of one object between two RRDP "
             "updates); the snapshot job runs exactly then and a comparison "
             "point follows. "
+            " Wave 5: every third history performs five complete key "
+            "rolls of the trust anchor's child before the first snapshot, "
+            "so that the signer and proxy hold more than ten exchanges when "
+            "the snapshot job runs."
         ),
         "assumptions": COMMON_ASSUMPTIONS + [
             "the running instance has no accessor for repository access/"
@@ -939,6 +982,10 @@ CHECKS = {
     },
     "C16": {
         "bin": "c16",
+        "san_stages": [
+            {"kind": "asan", "tiers": ["thorough"], "shards": 6,
+             "budget_s": 120},
+        ],
         "level": "exploration",
         "quick": {"shards": 12, "budget_s": 70, "min_evaluations": 60000},
         "thorough": {"shards": 14, "budget_s": 420, "min_evaluations": 1000000},
